@@ -114,7 +114,14 @@ fn plan_of(sc: &Scenario, i: usize) -> &ReqPlan {
 
 /// Judges connection 0 of a single-connection scenario against the reference model.
 pub fn judge_conn(sc: &Scenario, obs: &Obs, res: &RunResult, opts: &JudgeOpts) -> (Vec<Failure>, Model) {
-    let cs = client_stream(sc, 0);
+    let mut cs = client_stream(sc, 0);
+    if let Some(c) = obs.conns.get(0) {
+        if c.gave_up {
+            // a reactive client withheld part of its script and gave up
+            cs.bytes = c.sent_bytes.clone();
+            cs.half_closed = true;
+        }
+    }
     let m = model(&cs.bytes);
     let mut f = judge_robust(res, opts.allow_handler_panic);
     if res.end != End::Clean && res.end != End::Leftover {
